@@ -22,7 +22,7 @@ pub trait StrLike {
     fn is_fixed(&self) -> bool {
         false
     }
-    fn raw(&self) -> (usize, usize); // address, len
+    fn raw(&self) -> (std::ptr::NonNull<u8>, usize); // pointer, len
     fn as_str(&self) -> &str;
     fn capacity(&self) -> usize;
     fn pop(&mut self) -> Option<char>;
@@ -59,8 +59,8 @@ macro_rules! str_core {
         fn family(&self) -> &'static str {
             $name
         }
-        fn raw(&self) -> (usize, usize) {
-            (self.as_non_null().addr().get(), self.len())
+        fn raw(&self) -> (std::ptr::NonNull<u8>, usize) {
+            (self.as_non_null(), self.len())
         }
         fn pop(&mut self) -> Option<char> {
             Self::pop(self)
@@ -624,7 +624,7 @@ pub fn step(v: &mut dyn StrLike, model: &mut String, ctx: &mut VCtx) {
     }
     // the raw bytes are valid UTF-8, whatever happened
     let (addr, n) = v.raw();
-    let bytes = unsafe { std::slice::from_raw_parts(addr as *const u8, n) };
+    let bytes = unsafe { std::slice::from_raw_parts(addr.as_ptr() as *const u8, n) };
     if std::str::from_utf8(bytes).is_err() {
         ctx.viol("C09", format!("invalid_utf8_contents:{}:{}", v.family(), opname(&ctx.desc)), format!("bytes {:x?} after {}", &bytes[..n.min(32)], ctx.desc));
         // nothing more can be trusted
@@ -957,7 +957,7 @@ fn check_split(ctx: &mut VCtx, fam: &str, exp: Result<(String, String), ()>, got
         }
     }
     let (addr, n) = rest.raw();
-    let bytes = unsafe { std::slice::from_raw_parts(addr as *const u8, n) };
+    let bytes = unsafe { std::slice::from_raw_parts(addr.as_ptr() as *const u8, n) };
     if std::str::from_utf8(bytes).is_err() {
         ctx.viol("C09", format!("invalid_utf8_contents:{fam}:split_off"), format!("{bytes:x?}"));
     }
